@@ -312,16 +312,19 @@ type zvC30Seed struct {
 func (s *zvC30Seed) analyse(r *vh.Run) {
 	off := s.TLVOff
 	for off < len(s.Wire) {
+		// a seed whose TLV structure is inconsistent (only possible when the
+		// serializers are broken; the round-trip part reports that) is walked
+		// as far as it is consistent
 		if off+2 > len(s.Wire) {
-			r.Fatalf("seed %s: dangling TLV header at %d", s.Name, off)
+			return
 		}
 		t, l := s.Wire[off], int(s.Wire[off+1])
 		s.LenOffs = append(s.LenOffs, off+1)
 		if off+2+l > len(s.Wire) {
-			r.Fatalf("seed %s: TLV %d at %d overruns the seed", s.Name, t, off)
+			return
 		}
 		if t == AreaAddressesTLVType {
-			for o := off + 2; o < off+2+l; o += 1 + int(s.Wire[o]) {
+			for o := off + 2; o < off+2+l && o < len(s.Wire); o += 1 + int(s.Wire[o]) {
 				s.Inner = append(s.Inner, o)
 			}
 		}
@@ -382,10 +385,18 @@ func zvC30Seeds(r *vh.Run) []*zvC30Seed {
 	lspWith("dynamic_hostname", zvC30TLVBytes(NewDynamicHostnameTLV([]byte("bio"))))
 	lspWith("p2p_adjacency_state", zvC30TLVBytes(adj))
 	lspWith("unknown", zvC30TLVBytes(UnknownTLV{TLVType: 250, TLVLength: 3, TLVValue: []byte{1, 2, 3}}))
-	cs := NewCSNPs(types.SourceID{SystemID: zvC30SysID(1)}, zvC30Entries(3, 0), 1492)
-	ps := NewPSNPs(types.SourceID{SystemID: zvC30SysID(1)}, zvC30Entries(2, 0), 1492)
-	if len(cs) != 1 || len(ps) != 1 {
-		r.Fatalf("seed construction: NewCSNPs/NewPSNPs returned %d/%d PDUs for 3/2 entries", len(cs), len(ps))
+	// (a constructor that fails here is reported by the round-trip part; the seed is then built by hand)
+	var cs []CSNP
+	var ps []PSNP
+	vh.Try(func() { cs = NewCSNPs(types.SourceID{SystemID: zvC30SysID(1)}, zvC30Entries(3, 0), 1492) })
+	vh.Try(func() { ps = NewPSNPs(types.SourceID{SystemID: zvC30SysID(1)}, zvC30Entries(2, 0), 1492) })
+	if len(cs) != 1 {
+		tlv := NewLSPEntriesTLV(zvC30Entries(3, 0))
+		cs = []CSNP{{PDULength: CSNPMinLen + 2 + 3*LSPEntryLen, SourceID: types.SourceID{SystemID: zvC30SysID(1)}, EndLSPID: LSPID{SystemID: types.SystemID{255, 255, 255, 255, 255, 255}, PseudonodeID: 255, LSPNumber: 255}, TLVs: []TLV{tlv}}}
+	}
+	if len(ps) != 1 {
+		tlv := NewLSPEntriesTLV(zvC30Entries(2, 0))
+		ps = []PSNP{{PDULength: PSNPMinLen + 2 + 2*LSPEntryLen, SourceID: types.SourceID{SystemID: zvC30SysID(1)}, TLVs: []TLV{tlv}}}
 	}
 	add("csnp", "Decode", zvC30Wire(L2_CSNP_TYPE, &cs[0]), csnpOff)
 	add("psnp", "Decode", zvC30Wire(L2_PSNP_TYPE, &ps[0]), psnpOff)
@@ -437,9 +448,13 @@ func zvC30DecodePart(r *vh.Run, item *int) bool {
 	for _, s := range seeds {
 		nSeedBytes += len(s.Wire)
 		// the unmodified seed must decode (otherwise the mutation space is meaningless)
+		// the unmodified seed, built by the real serializers, must decode
 		if s.Entry == "Decode" {
-			if pkt, err := Decode(bytes.NewBuffer(append([]byte{}, s.Wire...))); err != nil || pkt.Body == nil {
-				r.Fatalf("seed %s does not decode: %v", s.Name, err)
+			var pkt *ISISPacket
+			var err error
+			if p, _ := vh.Try(func() { pkt, err = Decode(bytes.NewBuffer(append([]byte{}, s.Wire...))) }); !p && (err != nil || pkt == nil || pkt.Body == nil) {
+				r.Violation(vh.Sig("clause", "serialized_pdu_does_not_decode", "seed", s.Name), zvC30Case{Part: "decode", Entry: "seedcheck", Hex: hex.EncodeToString(s.Wire), Origin: "seed " + s.Name},
+					"the PDU %s, built with the package's serializers, does not decode: %v", s.Name, err)
 			}
 		}
 		buf := make([]byte, len(s.Wire), len(s.Wire)+300)
@@ -960,6 +975,17 @@ func TestVerifC30(t *testing.T) {
 			in, err := hex.DecodeString(c.Hex)
 			if err != nil {
 				r.Fatalf("replay case: bad hex: %v", err)
+			}
+			if c.Entry == "seedcheck" {
+				// re-build the named seed and decode it
+				for _, sd := range zvC30Seeds(r) {
+					if "seed "+sd.Name == c.Origin {
+						if pkt, err := Decode(bytes.NewBuffer(append([]byte{}, sd.Wire...))); err != nil || pkt == nil || pkt.Body == nil {
+							r.Violation(vh.Sig("clause", "serialized_pdu_does_not_decode", "seed", sd.Name), c, "the PDU %s, built with the package's serializers, does not decode: %v", sd.Name, err)
+						}
+					}
+				}
+				break
 			}
 			zvC30DecodeOne(r, &st, c.Entry, in, c.Origin)
 		case "hello":
